@@ -96,6 +96,9 @@ var mutantCatalogue = map[string][]mutant{
 		{Name: "rollback forgets the replaced writes", File: "risc/app.go", Old: "\t\tfor _, overwritten := range ctx.transactionOverwritten[register] {\n\t\t\tif overwritten.sequenceID < sequenceID && (tu.sequenceID >= sequenceID || overwritten.sequenceID > tu.sequenceID) {\n\t\t\t\ttu = overwritten\n\t\t\t}\n\t\t}\n", New: ""},
 	},
 	"C07": {
+		{Name: "jump resolution never ends the decode stall", File: "proc/mvp6-1/bu.go", Old: "u.du.notifyBranchResolved()", New: "_ = u"},
+		{Name: "resolved branch leaves the flag raised (6.1)", File: "proc/mvp6-1/bu.go", Old: "u.cu.notifyConditionalBranch()", New: "_ = u"},
+		{Name: "no-effect instruction never released", File: "proc/mvp6-2/wu.go", Old: "\t} else {\n\t\tu.ctx.DeletePendingRegisters(execution.ReadRegisters, execution.WriteRegisters)\n", New: "\t} else {\n"},
 		{Name: "write-unit emptiness test inverted", File: "proc/mvp7-0/cpu.go", Old: "\t\tif !wu.isEmpty() {\n\t\t\treturn false", New: "\t\tif wu.isEmpty() {\n\t\t\treturn false"},
 		{Name: "flush leaves the branch flag raised", File: "proc/mvp7-0/cu.go", Old: "\tu.pushedRunnersInPreviousCycle = nil\n\tu.pendingConditionalBranch = false\n}", New: "\tu.pushedRunnersInPreviousCycle = nil\n}"},
 		{Name: "refused writer still counted", File: "proc/comp/semaphore.go", Old: "\tif s.write > 0 || s.read > 0 {\n\t\treturn false\n\t}\n\ts.write++", New: "\ts.write++\n\tif s.write > 1 || s.read > 0 {\n\t\treturn false\n\t}"},
@@ -138,6 +141,7 @@ var mutantCatalogue = map[string][]mutant{
 		{Name: "queue dispatch forgets the branch flag", File: "proc/mvp7-1/cu.go", Old: "\t\t\tif runner.Runner.InstructionType().IsConditionalBranch() {\n\t\t\t\tu.pendingConditionalBranch = true\n\t\t\t}\n\t\t} else {\n\t\t\tu.skippedInCurrentCycle = append(u.skippedInCurrentCycle, runner)", New: "\t\t} else {\n\t\t\tu.skippedInCurrentCycle = append(u.skippedInCurrentCycle, runner)"},
 	},
 	"C03": {
+		{Name: "fetched pcs behind a jump are kept", File: "proc/mvp6-1/fu.go", Old: "fu.outBus.Clean()", New: "_ = fu"},
 		{Name: "sequence filter applies when NO limit is set", File: "proc/mvp6-3/wu.go", Old: "if r.sequenceID != -1 && execution.SequenceID > r.sequenceID {", New: "if r.sequenceID == -1 && execution.SequenceID > r.sequenceID {"},
 		{Name: "sequence filter negated", File: "proc/mvp7-0/wu.go", Old: "if r.sequenceID != -1 && execution.SequenceID > r.sequenceID {", New: "if !(r.sequenceID != -1 && execution.SequenceID > r.sequenceID) {"},
 		{Name: "second branch of a cycle not held", File: "proc/mvp6-2/cu.go", Old: "IsBranch() && u.pushedBranchInCurrentCycle {", New: "IsBranch() && !u.pushedBranchInCurrentCycle {"},
@@ -160,6 +164,7 @@ var mutantCatalogue = map[string][]mutant{
 		{Name: "decode does not stall after a jump", File: "proc/mvp6-0/du.go", Old: "\t\t\tu.pendingBranchResolution = true\n", New: ""},
 	},
 	"C04": {
+		{Name: "in-place store never released", File: "proc/mvp6-1/eu.go", Old: "\t\tr.ctx.DeletePendingRegisters(u.runner.Runner.ReadRegisters(), u.runner.Runner.WriteRegisters())\n", New: ""},
 		{Name: "in-order stall inverted", File: "proc/mvp5/eu.go", Old: "\tif ctx.IsWriteDataHazard(runner.Runner.ReadRegisters()) {", New: "\tif !ctx.IsWriteDataHazard(runner.Runner.ReadRegisters()) {"},
 		{Name: "in-order stall on the write set", File: "proc/mvp4/eu.go", Old: "\tif ctx.IsWriteDataHazard(runner.Runner.ReadRegisters()) {", New: "\tif ctx.IsWriteDataHazard(runner.Runner.WriteRegisters()) {"},
 		{Name: "dispatch when there ARE hazards", File: "proc/mvp7-0/cu.go", Old: "\tif len(hazards) == 0 {\n\t\tpushed := u.pushRunner", New: "\tif len(hazards) != 0 {\n\t\tpushed := u.pushRunner"},
